@@ -206,6 +206,16 @@ func runCase(idx int, c *caseDesc) {
 	if c.RefHas != nil {
 		add(Q, *c.RefHas)
 	}
+	if len(rules) > 1 && caseNo%3 == 0 {
+		// the list is installed in two steps (first rule alone, then the whole list in fresh objects): the rules added
+		// by the second load must get statistics of their own
+		first := *rules[0]
+		if _, err := flow.LoadRules([]*flow.Rule{&first}); err != nil {
+			run.Violation("C02/load-error", fmt.Sprintf("LoadRules failed for valid rules: %v", err), c)
+			return
+		}
+		run.Count("lists_installed_in_two_steps", 1)
+	}
 	if _, err := flow.LoadRules(rules); err != nil {
 		run.Violation("C02/load-error", fmt.Sprintf("LoadRules failed for valid rules: %v", err), c)
 		return
